@@ -473,11 +473,23 @@ fn spawn_part(comp: &str, build: &str, tier: Tier, seed: u64) -> Result<Option<P
     let out = format!("{VD}/target/parts/{comp}.{build}.part");
     let _ = std::fs::create_dir_all(format!("{VD}/target/parts"));
     let _ = std::fs::remove_file(&out);
-    let o = Command::new(&exe)
-        .args(["part", comp, tier.name(), &seed.to_string(), &out])
-        .stderr(std::process::Stdio::inherit())
-        .output()
-        .map_err(|e| format!("cannot start {exe}: {e}"))?;
+    let run_child = |threads: Option<&str>| {
+        let mut c = Command::new(&exe);
+        c.args(["part", comp, tier.name(), &seed.to_string(), &out])
+            .stderr(std::process::Stdio::inherit());
+        if let Some(t) = threads {
+            c.env("VERIF_THREADS", t);
+        }
+        c.output().map_err(|e| format!("cannot start {exe}: {e}"))
+    };
+    let mut o = run_child(None)?;
+    if o.status.code().is_none() {
+        // killed by a signal (e.g. the code under test corrupted the heap): the single-threaded
+        // run visits the runs in order and stops at the first finding, before the damage spreads
+        eprintln!("  note: component {comp} build {build} was killed by a signal; re-running it with one worker");
+        let _ = std::fs::remove_file(&out);
+        o = run_child(Some("1"))?;
+    }
     match o.status.code() {
         Some(0) => {}
         Some(3) => {
